@@ -23,6 +23,7 @@ import (
 type SpecialCase struct {
 	Kind          string `json:"kind"` // "keys" | "gc"
 	NonReplayable bool   `json:"non_replayable"`
+	Race          bool   `json:"race,omitempty"` // C14: the gc scenario under the race detector (finalizer goroutine vs janitor)
 	Seed          uint64 `json:"seed"`
 	KeyType       int    `json:"key_type"`
 	KeyName       string `json:"key_name"` // authoritative (the index shifts when the catalogue grows)
@@ -532,9 +533,17 @@ func runGC(sp *SpecialCase) *Outcome {
 	}
 	caches = nil
 	deadline := time.Now().Add(30 * time.Second)
+	if sp.Race {
+		deadline = time.Now().Add(5 * time.Second)
+	}
 	rounds := 0
 	for {
 		rounds++
+		if sp.Race {
+			// the janitors keep ticking while their caches are collected: a tick is
+			// already waiting in every ticker when the finalizers run
+			sim.Advance(int64(time.Second), false, 0)
+		}
 		runtime.GC()
 		runtime.Gosched()
 		time.Sleep(200 * time.Microsecond)
@@ -547,6 +556,9 @@ func runGC(sp *SpecialCase) *Outcome {
 			break
 		}
 		if time.Now().After(deadline) {
+			if sp.Race {
+				break // leaks are C15's business; here only the detector's verdict counts
+			}
 			if sim.BackgroundTasks() != before {
 				o.Violations = append(o.Violations, Violation{Rule: "janitor-leak", Detail: fmt.Sprintf("%d caches were dropped; after %d GC rounds (30 s) %d janitor tasks are still alive", sp.Caches, rounds, sim.BackgroundTasks()-before)})
 			} else {
@@ -554,6 +566,9 @@ func runGC(sp *SpecialCase) *Outcome {
 			}
 			break
 		}
+	}
+	if sp.Race && raceLogGrew() {
+		o.Violations = append(o.Violations, Violation{Rule: "race", Detail: "the race detector reported a data race while caches were dropped, collected and their janitors stopped (report in the detector log)"})
 	}
 	o.Probes["gc_rounds"] += rounds
 	o.Probes["caches_dropped"] += sp.Caches
